@@ -448,6 +448,15 @@ fn try_write_prelude_part<Body>(
 
         Phase::SendHeaders(index) => {
             let header_count = request.headers_len();
+
+            if header_count == 0 {
+                // No header at all (a target without a host to derive one from):
+                // the empty line alone ends the head.
+                if w.try_write(|w| write!(w, "\r\n")) {
+                    state.phase = Phase::SendBody;
+                }
+                return false;
+            }
             let all = request.headers();
             let skipped = all.skip(*index);
 
